@@ -28,6 +28,7 @@ import (
 	"github.com/hydraide/hydraide/app/core/hydra/swamp/chronicler/v2"
 	"github.com/hydraide/hydraide/app/core/hydra/swamp/metadata"
 	"github.com/hydraide/hydraide/app/core/hydra/swamp/treasure"
+	"github.com/hydraide/hydraide/app/verifhook"
 )
 
 // Config holds the migration configuration
@@ -261,6 +262,9 @@ func (m *Migrator) migrateSwamp(folderPath string) {
 		m.recordFailure(folderPath, err.Error(), "load")
 		return
 	}
+	if verifhook.Enabled {
+		verifhook.Trace("migrator.loaded", "path", folderPath, "entries", len(entries), "name", swampName)
+	}
 
 	atomic.AddInt64(&m.result.TotalEntries, int64(len(entries)))
 	atomic.AddInt64(&m.result.TotalRawEntries, rawEntryCount)
@@ -281,6 +285,9 @@ func (m *Migrator) migrateSwamp(folderPath string) {
 			"path", folderPath,
 			"swamp_name", swampName)
 		atomic.AddInt64(&m.result.EmptySwampsSkipped, 1)
+		if verifhook.Enabled {
+			verifhook.Trace("migrator.empty", "path", folderPath)
+		}
 
 		// Delete old V1 files if enabled (even for empty swamps)
 		if m.config.DeleteOld && !m.config.DryRun {
@@ -308,6 +315,9 @@ func (m *Migrator) migrateSwamp(folderPath string) {
 		m.recordFailure(folderPath, err.Error(), "write")
 		return
 	}
+	if verifhook.Enabled {
+		verifhook.Trace("migrator.written", "path", folderPath)
+	}
 
 	// Step 3: Verify (if enabled)
 	if m.config.Verify {
@@ -316,6 +326,9 @@ func (m *Migrator) migrateSwamp(folderPath string) {
 			os.Remove(hydFilePath)
 			m.recordFailure(folderPath, err.Error(), "verify")
 			return
+		}
+		if verifhook.Enabled {
+			verifhook.Trace("migrator.verified", "path", folderPath)
 		}
 	}
 
@@ -326,6 +339,9 @@ func (m *Migrator) migrateSwamp(folderPath string) {
 				"path", folderPath,
 				"error", err)
 			// Don't fail the migration, just log warning
+		}
+		if verifhook.Enabled {
+			verifhook.Trace("migrator.deleted", "path", folderPath)
 		}
 	}
 
@@ -599,6 +615,9 @@ func (m *Migrator) deleteV1Files(folderPath string) error {
 
 // recordFailure records a failed migration
 func (m *Migrator) recordFailure(path, errorMsg, phase string) {
+	if verifhook.Enabled {
+		verifhook.Trace("migrator.failed", "path", path, "phase", phase)
+	}
 	m.mu.Lock()
 	defer m.mu.Unlock()
 
